@@ -226,6 +226,10 @@ class C06(Prop):
                 # quantifiers whose bodies are decided for some iterations and need the strings for others
                 from .c04 import quantified_partial
                 c = quantified_partial(rng, 2)
+            elif rng.chance(1, 4):
+                # connectives over pending / undefined / decided operands in every order
+                from .c04 import poison_order
+                c = poison_order(rng, 2)
             if rng.chance(1, 4):
                 # what needs the strings is an ELEMENT of the enumeration or the COUNT of the selection, the rest
                 # being decidable: an element may turn out undefined once the matches are known (`@a[2]` with one
@@ -254,6 +258,28 @@ class C06(Prop):
                                        "ord_index": 0, "strings": strings, "cond": c}]}
             rs = json.loads(json.dumps(rs))
             return {"rs": rs, "mem": rng.choice(ruleset.MEMS).hex()}
+        if rng.chance(1, 12):
+            # a namespace disabled by a false global rule, its ordinary rules declaring strings, and rules with
+            # strings compiled after them in an enabled namespace: with include_not_matched the rules of the
+            # disabled namespace are reported without being evaluated, their string slots must still be consumed
+            rules = []
+            def add(ns, name, is_global, strings, c):
+                r = {"ns": ns, "name": name, "global": is_global, "private": False, "strings": strings, "cond": c, "id": len(rules)}
+                if not is_global:
+                    r["ord_index"] = len([x for x in rules if not x["global"]])
+                rules.append(r)
+            gcond = rng.choice([("bool", False), ("bin", "gt", ("filesize",), ("int", 100000)), ("var", 0)])
+            add(0, "g0", True, [["_c0", [122, 122, 122, 122]]] if gcond[0] == "var" else [], gcond)
+            for i in range(rng.range(1, 2)):
+                add(0, "r%d" % i, False, [["_a0", [97, 98]]] + ([["_d1", [97]]] if rng.chance(1, 2) else []),
+                    rng.choice([("var", 0), ("bin", "ge", ("count", 0), ("int", 1)), ("bool", True)]))
+            for i in range(rng.range(1, 2)):
+                add(1, "s%d" % i, False, [[rng.choice(["_b0", "_a0"]), rng.choice([[97, 98, 99], [97, 98]])]],
+                    rng.choice([("var", 0), ("bin", "ge", ("count", 0), ("int", 1)), ("varat", 0, ("int", 0))]))
+            if rng.chance(1, 2):
+                add(1, "g1", True, [], ("bool", True))
+            rs = json.loads(json.dumps({"rules": rules, "nns": 2}))
+            return {"rs": rs, "mem": rng.choice([b"abcabcab a\x00\x01xx", b"ab", b"xx abc xx", b"zzzz abc"]).hex()}
         nc = rng.chance(1, 4)       # nocase strings met in another case than written
         rs = ruleset.gen_ruleset(rng, max_rules=4, depth=3, poison=60, nocase=50 if nc else 0)
         mem = rng.choice(ruleset.MIXED_MEMS if nc else ruleset.MEMS)
